@@ -138,7 +138,7 @@ pub fn transcript(keep: usize, scale: usize) -> Transcript {
                 let pat = [Pattern::Random, Pattern::ZeroRuns, Pattern::Sparse, Pattern::Ones][h % 4];
                 let wb = kind.word_bytes();
                 let img = random_image(&mut rng, pat, ((16 + h % 70) / wb + 1) * wb, e);
-                let be = RBackend::ALL[h % 8];
+                let be = RBackend::ALL[h % RBackend::ALL.len()];
                 let cfg = RCfg { e, kind, be };
                 let ops = gen_history(&mut rng, cfg, &img, 4 + h % 30, &o, &cops);
                 let mut r = make_reader(cfg, &img);
